@@ -162,6 +162,7 @@ READER_SEEDS = [
     "(define (f x) (* x x))", "(let loop ((i 0)) (if (< i 3) (loop (+ i 1)) i))", "#!fold-case ABC", "#!no-fold-case abc",
     "#f32(1.0 2.5)", "#s8(-1 2)", "#u16(1 65535)", "(((((((((()))))))))) ", "\"\\a\\b\"", "#\\x0", "#\\delete", "#e1e400", "1e400",
     "#x1/2", "#o777", "-0.0", "123456789012345678901234567890", "#e.5e-3", "#i#x10", "#x#i10", "'#(a #u8(1) \"s\" #\\c 1.5 (x . y))",
+    "#0=#(a #0# #0#)", "#0=(#0# #0#)", "#0=#(#1=(#0# #1# . #1#) #0# #1#)", "#0=(#1=#(#0# #1#) . #0#)",
 ]
 MUT_TOKENS = ["(", ")", "#(", "#u8(", "'", "`", ",", ",@", ".", "#;", "#|", "|#", "\"", "|", "#\\", "#\\x", "\\x", ";", "#0=", "#0#", "#1=",
               "#99#", "#x", "#e", "#i", "#b", "#d", "#o", "/", "e", "+", "-", "i", "@", "#!", "#t", "#f", "\\", "\n", " ", "#", "..",
@@ -347,6 +348,15 @@ def run_items(b, exe, d, name, setup, items, item_ms=3000, timeout=240, max_roun
         ev = {"idx": last, "how": "timeout" if (r.timed_out or r.rc == 77) else r.describe(), "hard": r.rc == 77,
               "sanitizer": r.sanitizer_report(),
               "stderr": r.err[-2500:], "heapcheck": hc[:3]}
+        if ev["how"] != "timeout" and not ev["sanitizer"] and not hc and last is not None:
+            # a bare signal can also be the machine's doing (no page for the C stack under memory pressure, OOM killer): the
+            # same process history is run once more and the event only counts when the process dies at the same item again
+            r2 = R.run(b, None, raw_cmd=cmd, env_extra={"CHIBI_VERIF_HEAPCHECK": "16"}, timeout=timeout, cwd=d,
+                       stack_mb=512 if b.variant == "asan-rz" else None)
+            ann = [int(m2.group(1)) for m2 in (OUT_ITEM.match(l) for l in r2.out.split("\n")) if m2 and m2.group(1).isdigit()]
+            again = (r2.rc != 0 or r2.timed_out) and ann and ann[-1] == last and "#DONE" not in r2.out
+            if not again:
+                ev["unconfirmed"] = True
         fatal.append(ev)
         if last is None:
             break
@@ -424,6 +434,11 @@ def check(rep, tier, seed):
             n = LENS[s]
             iv = index_values(n)
             combos = [(i_, j_, k_) for i_ in iv for j_ in (iv if "{j}" in tmpl else ["0"]) for k_ in (iv if "{k}" in tmpl else ["0"])]
+            if tmpl == "(expt {i} {j})":
+                # results of astronomical size are resource exhaustion by construction (see the numeric family)
+                combos = [c for c in combos if abs(float(c[1])) < 10 ** 6 or c[0] in ("0", "1", "-1")]
+            if tmpl == "(expt 2 {i})":
+                combos = [c for c in combos if "." in c[0] or abs(int(c[0])) < 10 ** 6 or int(c[0]) >= 2 ** 62 or int(c[0]) < -2 ** 62]
             if len(combos) > (40 if tier == "quick" else 400):
                 combos = rng.sample(combos, 40 if tier == "quick" else 400)
             for i_, j_, k_ in combos:
@@ -481,6 +496,10 @@ def check(rep, tier, seed):
             items.append((mode, text))
             meta.append(("reader-" + mode, kind))
         files.append(("reader", [imports], items, meta))
+    # every seed text also as a quoted literal and as an expression, deterministically
+    qitems = [("evalscratch", "(quote %s)" % t) for t in READER_SEEDS] + [("evalscratch", t) for t in READER_SEEDS]
+    files.append(("reader", [imports], qitems, [("reader-evalscratch", "seed-quoted" if k < len(READER_SEEDS) else "seed-as-expression")
+                                                for k in range(len(qitems))]))
     fin = malformed_forms(rng, nform)
     for i in range(0, len(fin), 1500):
         part = fin[i:i + 1500]
@@ -524,6 +543,9 @@ def check(rep, tier, seed):
                 continue
             if ev["how"] == "too-many-restarts":
                 rep.inconc("skipped-after-too-many-fatal-events", "%s: %d items" % (f2, ev.get("skipped", 0)))
+                continue
+            if ev.get("unconfirmed"):
+                rep.inconc("process-died-once-not-again-on-the-same-history", "%s %s %s: %s" % (f2, nm, ev["how"], (item or "")[:160]))
                 continue
             san = ev.get("sanitizer")
             if san:
@@ -585,6 +607,9 @@ def check(rep, tier, seed):
             if ev["how"] == "timeout":
                 rep.inconc("watchdog", "deep %s %s %d" % (mode, shape, depth))
                 continue
+            if ev.get("unconfirmed"):
+                rep.inconc("process-died-once-not-again-on-the-same-history", "deep %s %s %d %s" % (mode, shape, depth, ev["how"]))
+                continue
             rep.violation({"check": "process-died", "family": "deep-nesting", "how": ev["how"], "via": mode, "shape": shape,
                            "depth_class": ">=1e5" if depth >= 10 ** 5 else "<1e5"},
                           {"mode": mode, "shape": shape, "depth": depth, "stderr": ev["stderr"][-600:]})
@@ -622,6 +647,66 @@ def check(rep, tier, seed):
                     rep.violation({"check": "replay-on-sanitized-build", "workload": mname,
                                    "mode": sg.get("mode") or sg.get("kind") or sg.get("check")},
                                   {"workload_signature": sg, "witness": wit})
+    # ---- interrupts: (thread-interrupt! t), which is also what SIGINT in the REPL does, stops a thread between two
+    # instructions; randomised time slices (H4) move that point over every kind of instruction boundary ------------------------
+    intr_src = """(import (scheme base) (scheme write) (scheme char) (srfi 18) (only (chibi ast) thread-interrupt!))
+(define (f n) (if (= n 0) 0 (+ 1 (f (- n 1)))))
+(define (g n acc) (if (= n 0) acc (g (- n 1) (cons n acc))))
+(define bodies
+  (vector (lambda (k) (f (+ 50 k)))
+          (lambda (k) (length (g (+ 50 k) '())))
+          (lambda (k) (let ((v (make-vector (+ 5 k) 1))) (vector-map (lambda (x) (* x 2)) v) (vector-fill! v 3)))
+          (lambda (k) (let ((p (open-output-string))) (write (g 40 '()) p) (string-length (get-output-string p))))
+          (lambda (k) (apply + (map (lambda (x) (* x x)) (g 30 '()))))
+          (lambda (k) (string->number (number->string (expt 3 (+ 60 k)))))
+          (lambda (k) (call-with-current-continuation (lambda (c) (f 30) (c k))))
+          (lambda (k) (guard (e (#f 'no)) (dynamic-wind (lambda () #f) (lambda () (f (+ 20 k))) (lambda () #f))))))
+(define handled 0)
+(define (run j k guarded)
+  (let* ((body (vector-ref bodies j))
+         (t (make-thread (lambda ()
+                           (if guarded
+                               (guard (e (#t (set! handled (+ handled 1)) 'handled)) (let lp () (body k) (lp)))
+                               (let lp () (body k) (lp)))))))
+    (thread-start! t)
+    (thread-yield!)
+    (thread-interrupt! t)
+    (guard (e (#t 'uncaught)) (thread-join! t))))
+(define results '())
+(do ((k 0 (+ k 1))) ((= k %d))
+  (do ((j 0 (+ j 1))) ((= j (vector-length bodies)))
+    (run j k #f)
+    (run j k #t)))
+;; the interpreter is intact afterwards: the fixed probe
+(write (list 'done handled (f 100) (length (g 100 '())) (vector-map (lambda (x) (* x x)) #(1 2 3))))
+(newline)
+"""
+    n_k = 12 if tier == "quick" else 40
+    ipath = os.path.join(d, "interrupt.scm")
+    with open(ipath, "w") as fh:
+        fh.write(intr_src % n_k)
+    ijobs = [("seed:%d:%d" % (seed * 1000 + i, q)) for i in range(12 if tier == "quick" else 100) for q in (7, 40, 400)]
+    ijobs.append(None)
+
+    def run_intr(sched):
+        env = {"CHIBI_VERIF_SCHED": sched} if sched else {}
+        return sched, R.run(bh, ["-h8M/256M", ipath], env_extra=env, timeout=300)
+
+    for sched, r in R.pmap(run_intr, ijobs):
+        rep.case(("interrupt", sched.rsplit(":", 1)[1] if sched else "default-slices"), n=n_k * 16)
+        rep.count("thread_interrupts_delivered", n_k * 16)
+        if r.timed_out:
+            rep.inconc("watchdog", "interrupt %s" % sched)
+            continue
+        last = r.out.strip().split("\n")[-1] if r.out.strip() else ""
+        m = re.match(r"\(done (\d+) 100 100 #\(1 4 9\)\)$", last)
+        # how many of the guarded threads had installed their handler when the interrupt arrived depends on the slices
+        if m and int(m.group(1)) <= n_k * 8:
+            rep.count("interrupts_caught_by_guard", int(m.group(1)))
+        if r.rc != 0 or r.sanitizer_report() or not (m and int(m.group(1)) <= n_k * 8):
+            rep.violation({"check": "process-died" if r.rc != 0 else "interrupted-thread-result", "family": "interrupt",
+                           "how": r.describe() if r.rc != 0 else "wrong final line"},
+                          {"sched": sched, "program": intr_src % n_k, "last_line": last[:300], "stderr": r.err[-600:]})
     # ---- deep DATA (built by a loop, not read): procedures that walk a datum recursively in C -----------------------------
     shapes = {"car-nested-list": "(let lp ((i 0) (x '())) (if (< i %d) (lp (+ i 1) (list x)) x))",
               "nested-vector": "(let lp ((i 0) (x '())) (if (< i %d) (lp (+ i 1) (vector x)) x))",
@@ -656,6 +741,9 @@ def check(rep, tier, seed):
         for ev in fatal:
             if ev["how"] == "timeout":
                 rep.inconc("watchdog", "deep-data %s %d %s" % (sname, depth, wname))
+                continue
+            if ev.get("unconfirmed"):
+                rep.inconc("process-died-once-not-again-on-the-same-history", "deep-data %s %d %s %s" % (sname, depth, wname, ev["how"]))
                 continue
             rep.violation({"check": "process-died", "family": "deep-data", "how": ev["how"], "shape": sname, "op": wname,
                            "depth_class": ">=1e5" if depth >= 10 ** 5 else "<1e5"},
